@@ -2,6 +2,7 @@ package scen
 
 import (
 	"bytes"
+	"encoding/hex"
 	"fmt"
 	"reflect"
 	"strings"
@@ -146,6 +147,16 @@ func interopLegA(r *core.Run, proto *spec.Proto, n int, opt spec.GenOpt) {
 		m := spec.Gen(c, pd, opt)
 		pdu := ToGo(m)
 		fillExtras(c, pdu, pd)
+		// a stale or caller-supplied header length must not reach the wire: the prefix is always the real byte count
+		if c.Prob(1, 3) {
+			h := reflect.ValueOf(pdu).Elem().FieldByName("Header")
+			for _, n := range []string{"TotalLength", "Length"} {
+				if f := h.FieldByName(n); f.IsValid() {
+					f.SetUint(uint64([]uint32{1, 12, 157, 0xffffffff, uint32(c.Intn(5000))}[c.Intn(5)]))
+					r.Probe("stale_header_length")
+				}
+			}
+		}
 		applyDocumentedNormalisation(m)
 		expected := deepCopy(ToGoLike(pdu, m))
 		var b []byte
@@ -199,6 +210,12 @@ func interopLegA(r *core.Run, proto *spec.Proto, n int, opt spec.GenOpt) {
 		}
 		for _, path := range goDiff(s.expected, fresh) {
 			cls := classOfField(s.pd, s.msg, path)
+			if cls == "/raw-in-hex-out" && showField(fresh, path) != fmt.Sprintf("%q", hex.EncodeToString([]byte(rawString(s.expected, path)))) {
+				cls = "/hex-differs" // not merely the known raw-vs-hex presentation: the ten octets themselves changed
+			}
+			if cls == "/trailing-nul" && rawString(fresh, path) != strings.TrimRight(rawString(s.expected, path), "\x00") {
+				cls = "/trailing-nul-differs" // more than the known loss of the trailing zero octets
+			}
 			r.Fail("C01", "roundtrip", site, "field="+path+cls, "field %s: sent %s, decoded %s", path, showField(s.expected, path), showField(fresh, path))
 		}
 		got := FromGo(fresh, s.pd, false)
@@ -250,6 +267,19 @@ func bodyLen(m *spec.Msg) int {
 		}
 	}
 	return -1
+}
+
+func rawString(p any, path string) string {
+	v := reflect.ValueOf(p).Elem()
+	for _, part := range strings.Split(path, ".") {
+		if v.Kind() == reflect.Struct {
+			v = v.FieldByName(part)
+		}
+	}
+	if v.IsValid() && v.Kind() == reflect.String {
+		return v.String()
+	}
+	return ""
 }
 
 func showField(p any, path string) string {
@@ -375,6 +405,9 @@ func interopLegB(r *core.Run, proto *spec.Proto, n int, opt spec.GenOpt) {
 			cls := ""
 			if f := s.pd.Field(name); f != nil && f.Kind == spec.KBin {
 				cls = "/" + binClass(s.m.F[name].B)
+				if cls == "/trailing-nul" && !bytes.Equal(got.F[name].B, bytes.TrimRight(s.m.F[name].B, "\x00")) {
+					cls = "/trailing-nul-differs"
+				}
 			}
 			r.Fail("C02", "decode", site, "field="+name+cls, "specification field %s: image carries %s, decoded %s", name, spec.Canon(s.m)[name], spec.Canon(got)[name])
 		}
